@@ -47,6 +47,9 @@ const (
 type _LexerStateMachine struct {
 	token int
 	state int
+	// accum is set while the text of an action-less fragment is pending, i.e. it
+	// has been matched but not yet emitted or discarded by a following rule.
+	accum bool
 	mode  []uint32
 	modeStack _Stack[[]uint32]
 }
@@ -108,6 +111,13 @@ func (l *_LexerStateMachine) PushRune(r rune) int {
 	// Move 'i' to the beginning of the actions section.
 	i += gotoN * 3
 
+	// State 0 is a token boundary: nothing has been consumed yet, and an empty
+	// match is not a token. Skip the actions so that a rule that can match the
+	// empty string does not produce empty tokens for ever.
+	if l.state == 0 {
+		i = end
+	}
+
 	for ; i < end; i += 2 {
 		switch mode[i] {
 		case 1: // PushMode
@@ -123,17 +133,22 @@ func (l *_LexerStateMachine) PushRune(r rune) int {
 		case 3: // Accept
 			l.token = int(mode[i+1])
 			l.state = 0
+			l.accum = false
 			return _lexerAccept
 		case 4: // Discard
 			l.state = 0
+			l.accum = false
 			return _lexerDiscard
 		case 5: // Accum
 			l.state = 0
+			l.accum = true
 			return _lexerTryAgain
 		}
 	}
 
-	if l.state == 0 && r == -1 {
+	// The input may only end at a token boundary with no accumulated text
+	// pending; otherwise that text would be silently dropped.
+	if l.state == 0 && r == -1 && !l.accum {
 		return _lexerEOF
 	}
 
@@ -142,6 +157,7 @@ func (l *_LexerStateMachine) PushRune(r rune) int {
 func (l *_LexerStateMachine) Reset() {
 	l.mode = nil
 	l.state = 0
+	l.accum = false
 }
 
 func (l *_LexerStateMachine) Token() int {
